@@ -59,13 +59,20 @@ def stepClient (c : Client) (toks : List String) : Option (Client × String) :=
     let r := c.step .close
     let ok := if r.2.1 == some .clientClosed then 0 else 1
     let cc := (r.2.2.filter (fun o => o == .connClose)).length
-    some (r.1, s!"closes={ok} connclose={cc} reader=exited")
+    let cs := r.2.2.filterMap (fun o => match o with
+      | .call h id e => some s!"h{h}:{showHex id}:{showCEv e}"
+      | _ => none)
+    let j := if cs.isEmpty then "-" else ",".intercalate (sortStrings cs)
+    some (r.1, s!"closes={ok} connclose={cc} reader=exited cb={j}")
   | _ => none
 
 /-- L2 state: the L1 client plus scripted blocking writes. Ticks go through the blocking-aware callback; everything
     else is the L1 operation on the embedded client. -/
 def stepClient2 (k : Client2) (toks : List String) : Option (Client2 × String) :=
   match toks with
+  -- real-time scenario (default ticker collector): all the model says is the theorem C10.exactly_once_by_close —
+  -- Close returns and every handler has been invoked exactly once
+  | ["CL", "realclose", n, _, _] => some (k, s!"ret=ok invoked-once={n}/{n}")
   | ["CL", "blockwrite", id] => let r := k.step (.blockWrite (hex! id)); some (r.1, "ok")
   | ["CL", "blockagent", id] => let r := k.step (.blockAgent (hex! id)); some (r.1, "ok")
   | ["CL", "tick", t] => let r := k.step (.l1 (.tick (nat! t))); some (r.1, showOuts r.2.2)
